@@ -45,7 +45,7 @@ static std::string run_case(const CaseFile &c) {
     const bool scalar = ml.is_scalar();
     CaseGuard guard;
     std::string msg;
-    cif_tp *cif = nullptr; cif_container_tp *blk = nullptr; cif_loop_tp *lh = nullptr, *lh2 = nullptr; cif_pktitr_tp *it = nullptr;
+    cif_tp *cif = nullptr; cif_container_tp *blk = nullptr; cif_loop_tp *lh = nullptr, *lh2 = nullptr, *stale = nullptr; cif_pktitr_tp *it = nullptr;
     cif_packet_tp *reuse = nullptr, *fresh = nullptr;
     // model state
     std::vector<std::vector<Value>> snapshot = ml.rows, cur = ml.rows;
@@ -70,6 +70,12 @@ static std::string run_case(const CaseFile &c) {
         nontrivial(fnv(c.get("doc") + "D"));
         goto done;
     }
+    // a handle on a loop that no longer exists (a temporary loop created and destroyed again: the CIF is as before) -- the one use of
+    // a stale handle that cif.h defines is cif_loop_get_packets(), which answers CIF_INVALID_HANDLE
+    { UChar *sn[] = {(UChar *) u"_tmp_stale_item", nullptr}; cif_loop_tp *s1 = nullptr;
+      if (cif_container_create_loop(blk, u"tmp_stale_cat", sn, &s1) != CIF_OK) FAILMSG("cannot create the temporary loop");
+      if (cif_container_get_item_loop(blk, u"_tmp_stale_item", &stale) != CIF_OK) { cif_loop_free(s1); FAILMSG("cannot get a second handle on the temporary loop"); }
+      if (cif_loop_destroy(s1) != CIF_OK) { cif_loop_free(s1); FAILMSG("cannot destroy the temporary loop"); } }
     rc = cif_loop_get_packets(lh, &it);
     if (cur.empty()) {
         label("empty-loop");
@@ -142,7 +148,12 @@ static std::string run_case(const CaseFile &c) {
             }
             std::vector<ustr> pn; for (auto cidx : cols) pn.push_back(ml.names[cidx]);
             size_t fpos = 0;
-            if (kind == A_UPDATE_FOREIGN) { fpos = (size_t) s.b % (pn.size() + 1); pn.insert(pn.begin() + fpos, d.blocks[0].loops.size() > 1 && s.a % 2 ? d.blocks[0].loops[1].names[0] : ustr(u"_not_in_any_loop")); vals.insert(vals.begin() + fpos, Value::chr(u"foreign")); label(fpos ? "foreign@later" : "foreign@first"); }
+            if (kind == A_UPDATE_FOREIGN) { fpos = (size_t) s.b % (pn.size() + 1);
+                // the foreign name: an item of the other loop, a name in no loop, or (a third of the cases) a name in no loop that has the
+                // length and all but the last character of one of the iterated loop's own names
+                ustr foreign = d.blocks[0].loops.size() > 1 && s.a % 2 ? d.blocks[0].loops[1].names[0] : ustr(u"_not_in_any_loop");
+                if (s.a % 3 == 0) { foreign = ml.names[(size_t) s.b % ml.names.size()]; foreign.back() = u'z'; label("foreign:near-miss-name"); }
+                pn.insert(pn.begin() + fpos, foreign); vals.insert(vals.begin() + fpos, Value::chr(u"foreign")); label(fpos ? "foreign@later" : "foreign@first"); }
             std::vector<UChar *> np; for (auto &n : pn) np.push_back((UChar *) n.c_str()); np.push_back(nullptr);
             if (cif_packet_create(&up, np.data()) != CIF_OK) FAILMSG(at + "packet_create failed");
             for (size_t j = 0; j < pn.size(); j++) { cif_value_tp *v = nullptr; if (cm::to_cif(vals[j], &v) != CIF_OK) { vals[j] = Value::unk(); (void) cm::to_cif(vals[j], &v); } (void) cif_packet_set_item(up, (const UChar *) pn[j].c_str(), v); cif_value_free(v); }
@@ -168,6 +179,7 @@ static std::string run_case(const CaseFile &c) {
             bool other = d.blocks[0].loops.size() > 1;
             int kind = (int) (s.a % (other ? 6 : 3));
             if (scalar && s.b % 4 == 0) kind = 6;     // a second scalar loop for the block (the iterated loop is its scalar loop)
+            else if (s.b % 5 == 1) kind = 7;          // an iterator requested through a handle on a loop that no longer exists
             cif_loop_tp *oh = nullptr;
             if (kind >= 3 && kind <= 5 && cif_container_get_item_loop(blk, u"_other1", &oh) != CIF_OK) FAILMSG(at + "cannot get a handle on the other loop");
             int want2 = 0; const char *what = "";
@@ -176,6 +188,7 @@ static std::string run_case(const CaseFile &c) {
             else if (kind == 2) { UChar *nn[] = {(UChar *) u"_brand_new", (UChar *) ml.names[(size_t) s.b % ml.names.size()].c_str(), nullptr}; cif_loop_tp *nl = nullptr; rc = cif_container_create_loop(blk, u"newcat", nn, &nl); if (nl) cif_loop_free(nl); want = CIF_DUP_ITEMNAME; what = "cif_container_create_loop(a name already in the container, second position)"; }
             else if (kind == 3) { rc = cif_loop_add_item(oh, u"_other2", nullptr); want = CIF_DUP_ITEMNAME; what = "cif_loop_add_item(existing name)"; }
             else if (kind == 4) { cif_packet_tp *fp = nullptr; UChar *fn[] = {(UChar *) u"_other1", (UChar *) u"_nowhere", nullptr}; if (cif_packet_create(&fp, fn) != CIF_OK) { cif_loop_free(oh); FAILMSG(at + "packet_create"); } rc = cif_loop_add_packet(oh, fp); cif_packet_free(fp); want = CIF_WRONG_LOOP; what = "cif_loop_add_packet(packet naming a foreign item last)"; }
+            else if (kind == 7) { cif_pktitr_tp *it2 = nullptr; rc = cif_loop_get_packets(stale, &it2); if (rc == CIF_OK) (void) cif_pktitr_abort(it2); want = CIF_INVALID_HANDLE; want2 = CIF_MISUSE; what = "cif_loop_get_packets(handle on a loop that no longer exists)"; }
             else if (kind == 6) { UChar *nn[] = {(UChar *) u"_second_scalar", nullptr}; cif_loop_tp *nl = nullptr; rc = cif_container_create_loop(blk, u"", nn, &nl); if (nl) cif_loop_free(nl); want = CIF_RESERVED_LOOP; what = "cif_container_create_loop(a second scalar loop)"; }
             else { cif_pktitr_tp *it2 = nullptr; rc = cif_loop_get_packets(oh, &it2); if (rc == CIF_OK) { label("second-iterator-granted"); (void) cif_pktitr_close(it2); } want = rc == CIF_OK ? CIF_OK : CIF_ERROR; want2 = CIF_MISUSE; what = "cif_loop_get_packets(another loop)"; }
             if (oh) cif_loop_free(oh);
@@ -274,6 +287,7 @@ done:
     if (it) (void) cif_pktitr_abort(it);
     cif_packet_free(reuse); cif_packet_free(fresh);
     if (lh) cif_loop_free(lh);
+    if (stale) cif_loop_free(stale);
     if (blk) cif_container_free(blk);
     if (cif) { int drc = cif_destroy(cif); if (drc != CIF_OK && msg.empty()) msg = "cif_destroy failed"; }
     if (msg.empty()) msg = guard.check();
